@@ -36,7 +36,8 @@ def _run(cmd, cwd, timeout, what):
 
 
 def build_coq():
-    if not os.path.exists(os.path.join(COQ, 'Makefile')):
+    mk, prj = os.path.join(COQ, 'Makefile'), os.path.join(COQ, '_CoqProject')
+    if not os.path.exists(mk) or os.path.getmtime(mk) < os.path.getmtime(prj):   # a file list that changed since
         _run(['coq_makefile', '-f', '_CoqProject', '-o', 'Makefile'], COQ, 120, 'coq_makefile')
     _run(['make', '-j%d' % NCPU], COQ, 3600, 'coq make')
 
